@@ -49,7 +49,9 @@ def interp(x_new, x, y):
         i1, i2 = idx-1, idx
     else:
         i1, i2 = idx, idx+1
-    return (y[i1] + y[i1])*0.5
+    if i1 < 0 or i2 >= len(x):
+        return y[idx]
+    return y[i1] + (x_new - x[i1]) / (x[i2] - x[i1]) * (y[i2] - y[i1])
 """
 
 # Weighted sum: einsum-based, identical algebra to base_funcs.wsum but using
